@@ -50,6 +50,13 @@ type slot struct {
 	v1      storage.Appender
 	v2      storage.AppenderV2
 	m       *tsdbmodel.App
+	held    []heldHist // histograms handed to this appender and their pristine copies (C11: the caller's stay unchanged)
+}
+
+type heldHist struct {
+	t     int64
+	h, h0 *histogram.Histogram
+	f, f0 *histogram.FloatHistogram
 }
 
 type image struct {
@@ -62,12 +69,13 @@ type image struct {
 }
 
 type exec struct {
-	t    *testing.T
-	prop string
-	plan *Plan
-	cfg  Config
-	res  *runner.Result
-	rng  *prng.R // oracle-side choices (query windows); never influences the SUT
+	delTimes map[string][]int64 // C12: timestamps deleted so far, per series
+	t        *testing.T
+	prop     string
+	plan     *Plan
+	cfg      Config
+	res      *runner.Result
+	rng      *prng.R // oracle-side choices (query windows); never influences the SUT
 
 	root string
 	dir  string
@@ -716,6 +724,14 @@ func (e *exec) verify(db querierSource, lower, upper *tsdbmodel.Model, oracle, w
 			e.res.Violate(e.prop, oracle+"-query-error", "query-error", "%s: query [%d,%d] failed: %v", where, w.a, w.b, err)
 			return false
 		}
+		if e.prop == "C12" {
+			// (a predecessor is only demanded for the first sample of a series when the query covers everything:
+			// a window that starts inside a chunk returns that chunk's later samples with their stored hints)
+			if d, sig := e.hintUnsound(res, wi == 0); d != "" {
+				e.res.Violate(e.prop, "counter-reset-hint", hintSig(sig, "sample-query"), "%s: query [%d,%d]: %s", where, w.a, w.b, d)
+				return false
+			}
+		}
 		if d := compareAll(lower, upper, res, w.a, w.b, minReq); len(d) > 0 {
 			if debugOn {
 				if rdb, ok := db.(*tsdb.DB); ok {
@@ -733,6 +749,12 @@ func (e *exec) verify(db querierSource, lower, upper *tsdbmodel.Model, oracle, w
 				e.res.Violate(e.prop, oracle+"-chunk-query-error", "chunk-query-error", "%s: chunk query [%d,%d] failed: %v", where, w.a, w.b, err)
 				return false
 			}
+			if e.prop == "C12" {
+				if d, sig := e.hintUnsound(cres, wi == 0); d != "" {
+					e.res.Violate(e.prop, "counter-reset-hint", hintSig(sig, "chunk-query"), "%s: chunk query [%d,%d]: %s", where, w.a, w.b, d)
+					return false
+				}
+			}
 			for k, v := range cres {
 				cres[k] = clip(v, w.a, w.b)
 			}
@@ -744,6 +766,129 @@ func (e *exec) verify(db querierSource, lower, upper *tsdbmodel.Model, oracle, w
 		}
 	}
 	return ok
+}
+
+// hintUnsound is the C12 oracle over one query result: a counter histogram sample marked NotCounterReset must have a
+// preceding sample in the same result that is a non-stale histogram of the same layout and nowhere above it.
+// firstToo: also demand a predecessor for the first sample of a series (the result starts where the data starts).
+func (e *exec) hintUnsound(res qresult, firstToo bool) (detail, sig string) {
+	d, k, lo, hi := e.hintUnsound1(res, firstToo)
+	if d == "" {
+		return "", ""
+	}
+	for _, t := range e.delTimes[k] {
+		if t > lo && t < hi {
+			// listed finding: the stored predecessor of the marked sample was deleted
+			return d + fmt.Sprintf(" (the sample at t=%d between them was deleted)", t), "known:" + TagHintAfterDelete
+		}
+	}
+	return d, "unsound-not-counter-reset-hint"
+}
+
+// TagHintAfterDelete is the known finding (C12): tombstones are applied sample by sample (DeletedIterator) and the
+// surviving samples keep the counter-reset hint they had in their chunk, so a sample whose stored predecessor was
+// deleted is still returned as NotCounterReset although the sample now preceding it may be higher (a reset lay in
+// the deleted range). The behaviour is pinned by TestPopulateWithTombSeriesIterators, so it is listed, not repaired.
+const TagHintAfterDelete = "not-counter-reset-hint-kept-after-deleted-predecessor"
+
+// hintUnsound1 returns the first unsound hint: description, series key and the open interval (lo, hi) in which the
+// stored predecessor must have been.
+func (e *exec) hintUnsound1(res qresult, firstToo bool) (string, string, int64, int64) {
+	keys := make([]string, 0, len(res))
+	for k := range res {
+		keys = append(keys, k)
+	}
+	sort.Strings(keys)
+	toF := func(s tsdbmodel.Sample) *histogram.FloatHistogram {
+		switch s.Kind {
+		case tsdbmodel.KHist:
+			return s.H.ToFloat(nil)
+		case tsdbmodel.KFHist:
+			return s.FH
+		}
+		return nil
+	}
+	for _, k := range keys {
+		v := res[k]
+		for i, smp := range v {
+			cur := toF(smp)
+			if cur == nil || smp.IsStale() {
+				continue
+			}
+			e.res.Count("hist_samples_hint_checked", 1)
+			if cur.CounterResetHint != histogram.NotCounterReset {
+				continue
+			}
+			e.res.Count("hint_not_counter_reset_seen", 1)
+			if i == 0 {
+				if firstToo {
+					return fmt.Sprintf("series %s: first returned sample %s is marked NotCounterReset but has no preceding sample", k, smp), k, math.MinInt64, smp.T
+				}
+				continue
+			}
+			prev := toF(v[i-1])
+			if prev == nil || v[i-1].IsStale() {
+				return fmt.Sprintf("series %s: %s is marked NotCounterReset but the preceding sample %s is not a histogram value", k, smp, v[i-1]), k, v[i-1].T, smp.T
+			}
+			if prev.Schema != cur.Schema || math.Float64bits(prev.ZeroThreshold) != math.Float64bits(cur.ZeroThreshold) || !eqF64s(prev.CustomValues, cur.CustomValues) {
+				return fmt.Sprintf("series %s: %s is marked NotCounterReset but the preceding sample %s has another bucket layout", k, smp, v[i-1]), k, v[i-1].T, smp.T
+			}
+			if cur.Count < prev.Count || cur.ZeroCount < prev.ZeroCount || bucketBelow(cur.PositiveSpans, cur.PositiveBuckets, prev.PositiveSpans, prev.PositiveBuckets) ||
+				bucketBelow(cur.NegativeSpans, cur.NegativeBuckets, prev.NegativeSpans, prev.NegativeBuckets) {
+				return fmt.Sprintf("series %s: %s is marked NotCounterReset but some count is lower than in the preceding sample %s", k, smp, v[i-1]), k, v[i-1].T, smp.T
+			}
+		}
+	}
+	return "", "", 0, 0
+}
+
+func hintSig(sig, kind string) string {
+	if strings.HasPrefix(sig, "known:") {
+		return sig
+	}
+	return sig + ":" + kind
+}
+
+func eqF64s(a, b []float64) bool {
+	if len(a) != len(b) {
+		return false
+	}
+	for i := range a {
+		if math.Float64bits(a[i]) != math.Float64bits(b[i]) {
+			return false
+		}
+	}
+	return true
+}
+
+func absBuckets(spans []histogram.Span, vals []float64) map[int32]float64 {
+	m := map[int32]float64{}
+	var idx int32
+	bi := 0
+	for si, sp := range spans {
+		if si == 0 {
+			idx = sp.Offset
+		} else {
+			idx += sp.Offset
+		}
+		for j := uint32(0); j < sp.Length && bi < len(vals); j++ {
+			m[idx] = vals[bi]
+			bi++
+			idx++
+		}
+	}
+	return m
+}
+
+// bucketBelow reports whether any bucket of cur is lower than the same bucket of prev (absent = 0).
+func bucketBelow(cs []histogram.Span, cv []float64, ps []histogram.Span, pv []float64) bool {
+	c := absBuckets(cs, cv)
+	for i, x := range absBuckets(ps, pv) {
+		if c[i] < x {
+			return true
+		}
+	}
+	return false
 }
 
 // ---- run ----
@@ -933,6 +1078,10 @@ func (e *exec) nonTrivial() bool {
 		return e.res.Counters["samples_deleted"] > 0 && e.compactions > 0 && e.restarts > 0
 	case "C52":
 		return e.res.Counters["counter_checks"] > 10 && e.restarts > 0
+	case "C11":
+		return e.res.Counters["caller_histograms_tracked"] >= 8 && e.compactions > 0 && e.restarts > 0
+	case "C12":
+		return e.res.Counters["hint_not_counter_reset_seen"] > 0 && e.compactions > 0
 	case "C53":
 		return e.res.Counters["ro_checks_with_head_data"] > 0
 	case "C23":
@@ -997,13 +1146,14 @@ func (e *exec) doAdd(o Op) {
 	}
 	lset := e.lsets[o.S]
 	// private copies to check that the caller's histograms stay unchanged (C11)
-	var hCopy *histogram.Histogram
-	var fhCopy *histogram.FloatHistogram
+	// The head gets its own objects ("the caller's"); the model keeps v, which nothing else can touch (C11).
+	var hPass *histogram.Histogram
+	var fhPass *histogram.FloatHistogram
 	if v.H != nil {
-		hCopy = v.H.Copy()
+		hPass = v.H.Copy()
 	}
 	if v.FH != nil {
-		fhCopy = v.FH.Copy()
+		fhPass = v.FH.Copy()
 	}
 	slotID := o.Slot%3 + 1
 	ms := e.m.Series[o.S]
@@ -1073,7 +1223,7 @@ func (e *exec) doAdd(o Op) {
 	var gotRef storage.SeriesRef
 	var err error
 	if e.cfg.V2 {
-		gotRef, err = s.v2.Append(ref, lset, 0, t, v.F, v.H, v.FH, storage.AOptions{RejectOutOfOrder: o.Rej})
+		gotRef, err = s.v2.Append(ref, lset, 0, t, v.F, hPass, fhPass, storage.AOptions{RejectOutOfOrder: o.Rej})
 	} else {
 		if o.Rej {
 			s.v1.SetOptions(&storage.AppendOptions{DiscardOutOfOrder: true})
@@ -1084,12 +1234,16 @@ func (e *exec) doAdd(o Op) {
 		case tsdbmodel.KFloat:
 			gotRef, err = s.v1.Append(ref, lset, t, v.F)
 		default:
-			gotRef, err = s.v1.AppendHistogram(ref, lset, t, v.H, v.FH)
+			gotRef, err = s.v1.AppendHistogram(ref, lset, t, hPass, fhPass)
 		}
 	}
-	if v.H != nil && !tsdbmodel.HistEqual(v.H, hCopy) || v.FH != nil && !tsdbmodel.FHistEqual(v.FH, fhCopy) {
+	if v.H != nil && !histSame(hPass, v.H) || v.FH != nil && !fhistSame(fhPass, v.FH) {
 		e.fail("caller-histogram-mutated", "append-mutated-histogram", "op %d: Append changed the histogram passed by the caller at t=%d", e.opIdx, t)
 		return
+	}
+	if v.H != nil || v.FH != nil {
+		s.held = append(s.held, heldHist{t: t, h: hPass, h0: v.H, f: fhPass, f0: v.FH})
+		e.res.Count("caller_histograms_tracked", 1)
 	}
 	// Window of an appender created on an uninitialised head is fixed by its first append.
 	if !s.m.W.Init {
@@ -1165,6 +1319,28 @@ func (e *exec) doAdd(o Op) {
 	}
 }
 
+// histSame: semantically unchanged including the counter-reset hint.
+func histSame(a, b *histogram.Histogram) bool {
+	return tsdbmodel.HistEqual(a, b) && a.CounterResetHint == b.CounterResetHint
+}
+
+func fhistSame(a, b *histogram.FloatHistogram) bool {
+	return tsdbmodel.FHistEqual(a, b) && a.CounterResetHint == b.CounterResetHint
+}
+
+// checkHeld verifies that the histograms handed to an appender are still what the caller passed (C11).
+func (e *exec) checkHeld(s *slot, when string) bool {
+	held := s.held
+	s.held = nil
+	for _, x := range held {
+		if x.h != nil && !histSame(x.h, x.h0) || x.f != nil && !fhistSame(x.f, x.f0) {
+			e.fail("caller-histogram-mutated", "commit-mutated-histogram", "op %d: %s changed the histogram the caller passed for t=%d", e.opIdx, when, x.t)
+			return false
+		}
+	}
+	return true
+}
+
 func lastStr(l *tsdbmodel.Sample) string {
 	if l == nil {
 		return "none"
@@ -1188,6 +1364,9 @@ func (e *exec) doCommit(i int) {
 	synctest.Wait()
 	if err != nil {
 		e.fail("commit-error", "commit-error", "op %d: Commit failed: %v", e.opIdx, err)
+		return
+	}
+	if !e.checkHeld(s, "Commit") {
 		return
 	}
 	if e.m.Epoch > 0 && e.oooCompactedThisEpoch {
@@ -1287,6 +1466,7 @@ func (e *exec) doRollback(i int) {
 	s.m.Pending = nil
 	e.creatorDone(i)
 	e.res.Count("rollbacks", 1)
+	e.checkHeld(s, "Rollback")
 	if err != nil {
 		e.fail("rollback-error", "rollback-error", "op %d: Rollback failed: %v", e.opIdx, err)
 	}
@@ -1394,6 +1574,11 @@ func (e *exec) step(o Op) {
 		if mint > maxt {
 			mint, maxt = maxt, mint
 		}
+		if e.prop == "C12" && e.cfg.KF != TagHintAfterDelete {
+			// Known finding (C12): a sample whose predecessor was deleted keeps its NotCounterReset hint.
+			e.res.Count("skipped:"+TagHintAfterDelete, 1)
+			break
+		}
 		if e.cfg.KF != tsdbmodel.TagTombHides && e.pendingFor(matchFn(o.M)) {
 			// Known finding: samples committed after the deletion into its range are hidden by the head tombstone.
 			e.res.Count("skipped:"+tsdbmodel.TagTombHides, 1)
@@ -1411,6 +1596,22 @@ func (e *exec) step(o Op) {
 		hmin := int64(math.MaxInt64)
 		if e.headInit() {
 			hmin = e.db.Head().MinTime()
+		}
+		if e.prop == "C12" {
+			mf := matchFn(o.M)
+			for _, ms := range e.m.Series {
+				if !mf(ms.Labels) {
+					continue
+				}
+				for t, c := range ms.Cells {
+					if t >= mint && t <= maxt && !c.Deleted {
+						if e.delTimes == nil {
+							e.delTimes = map[string][]int64{}
+						}
+						e.delTimes[ms.Labels.String()] = append(e.delTimes[ms.Labels.String()], t)
+					}
+				}
+			}
 		}
 		n := e.m.Delete(mint, maxt, matchFn(o.M), hmin)
 		e.res.Count("deletes", 1)
